@@ -93,6 +93,15 @@ def check_timeline(tl, beats, extra_sets=()):
         NQ[0] += len(ans)
         back = beat_answers(engine, times, reverse=True)
         NQ[0] += len(back)
+        # the timing data is an input: a second engine built from the very same object answers the same
+        snap = TC.timing_snapshot(engine.timing_data)
+        second = beat_answers(TC.TimingEngine(engine.timing_data), times[:: max(1, len(times) // 12)])
+        NQ[0] += len(second)
+        d2 = [k for k in second if second[k] != ans[k]]
+        if d2:
+            fail("a second engine built from the same timing data object answers differently", str(ans[d2[0]]), str(second[d2[0]]), time=d2[0][0], tag=str(d2[0][1]))
+        if TC.timing_snapshot(engine.timing_data) != snap:
+            fail("building / querying an engine modified the caller's timing data", "unchanged", "changed")
         diff = [k for k in ans if back[k] != ans[k]]
         if diff:
             k = diff[0]
